@@ -294,7 +294,29 @@ def r3(cx):
         e = [x for x in f.calls() if x.q == T.Q_EMIT_EVENT and pa.root(f, x.args[1]) == elem]
         ok = bool(w) and bool(e) and any(f.dominates(a.b, b.b) for a in w for b in e) and any(f.dominates(b.b, c.b) for b in e)
         cx.ob("C01.R3", "resume:%s:sequence" % f.short, ok, "the resume sequence is set_state(Running) -> emit_task_event -> exec on the same child", c.loc)
-    cx.floor("C01.R3", 12)
+        # the scan reaches every child: the loop is left only when the children are exhausted or after a child was resumed
+        from rules.c16 import natural_loops
+        from rules.c07 import loop_exits
+        inner = sorted([(len(body), h, body) for h, body in natural_loops(f) if elem[0] == "call" and elem[2] in body])
+        bad = None
+        if inner and w and elem[0] == "call":
+            _, h, body = inner[0]
+            bad = []
+            for frm, to in loop_exits(f, h, body):
+                t = f.blocks[frm]["t"]
+                r = pa.root(f, t[1]) if t[0] == "switch" else None
+                if r is not None and r[0] == "discr" and r[1][:3] == elem[:3]:
+                    continue  # the iterator is exhausted
+                if any(f.dominates(x.b, frm) for x in w):
+                    continue  # after a wake-up (return / `?` of the resume sequence)
+                rets = set(f.ret_blocks())
+                if any(not (set(f.reach_from([to], avoid=[x.b])) & rets) for x in w):
+                    continue  # into the wake-up: nothing returns from there without having resumed the child
+                bad.append("line %s" % f.loc(frm).split(":")[-1])
+        cx.ob("C01.R3", "resume:%s:every-child" % f.short, bad == [],
+              "`%s` leaves its scan of the children only when they are exhausted or after it resumed one%s" % (
+                  f.short, "" if bad == [] else " - but it also leaves it at %s: children behind that point are never examined, a ready sleeper among them is never woken" % (bad,)), c.loc)
+    cx.floor("C01.R3", 15)
 
 
 def r4(cx):
